@@ -90,7 +90,7 @@ var c08Menu = []string{
 	"oj.ValidateReader", "oj.TokenizeLoad", "oj.MatchLoad", "sen.Tokenize", "sen.Match", "sen.MatchLoad", "pretty.WriteJSON", "oj.MustParse", "sen.MustParse", "alt.Alter", "alt.Dup", "jp.String", "alt.Recompose(embedded)", "oj.Unmarshal(embedded)",
 	// aborted calls: the error paths run concurrently with everybody else's calls
 	"oj.Marshal(unencodable)", "oj.Marshal(failing Marshaler)", "oj.JSON(panicking Simplifier)", "oj.Write(failing writer)", "sen.Write(failing writer)",
-	"sen.String(panicking Simplifier)", "oj.Load(reader error)", "oj.Parse(panicking callback)", "oj.Tokenize(panicking handler)", "sen.Parse(panicking callback)", "oj.Marshal(failing TextMarshaler)",
+	"sen.String(panicking Simplifier)", "oj.Load(reader error)", "oj.Parse(panicking callback)", "oj.Tokenize(panicking handler)", "sen.Parse(panicking callback)", "oj.Marshal(failing TextMarshaler)", "sen.ParseReader(reader error)", "oj.Parse(callback)", "sen.Parse(callback)", "oj.Parse(empty)",
 }
 
 type failingMarshaler struct{ N int }
@@ -145,7 +145,7 @@ func drawOp08(t *rapid.T) *op08 {
 	switch {
 	case o.Fn == "oj.Marshal(unencodable)":
 		o.Val = make(chan int)
-	case strings.Contains(o.Fn, "failing") || strings.Contains(o.Fn, "panicking") || strings.Contains(o.Fn, "reader error"):
+	case strings.Contains(o.Fn, "failing") || strings.Contains(o.Fn, "panicking") || strings.Contains(o.Fn, "reader error") || strings.Contains(o.Fn, "callback") || strings.Contains(o.Fn, "empty"):
 	case strings.HasPrefix(o.Fn, "oj.JSON"), strings.HasPrefix(o.Fn, "oj.Marshal"), strings.HasPrefix(o.Fn, "oj.Write"), strings.HasPrefix(o.Fn, "sen.String"), o.Fn == "sen.Bytes", o.Fn == "sen.Write", strings.HasPrefix(o.Fn, "pretty."), o.Fn == "alt.Decompose":
 		// (pretty.WriteJSON included)
 		o.Val, o.Desc = drawVal08(t)
@@ -187,7 +187,7 @@ func (o *op08) exec() (r ret08) {
 		}
 	}()
 	val := func(v any, err error) {
-		r.canon = canonDocs(err != nil, []any{v})
+		r.canon = canonDocs(err != nil, []any{v}) // the value is part of the result also when an error is returned
 		if err == nil {
 			r.retained = []any{v}
 		}
@@ -402,9 +402,27 @@ func (o *op08) exec() (r ret08) {
 		sw := sim.NewSimWriter(0)
 		r.canon = fmt.Sprint(sen.Write(sw, []any{1, "two", []any{3, 4, 5}}) != nil)
 	case "oj.Load(reader error)":
-		rd := sim.NewSimReader(doc(o.A), &sim.Schedule{Every: 3, FailAt: o.B % 7})
-		_, err := oj.Load(rd)
-		r.canon = fmt.Sprint(err != nil)
+		// the error may come anywhere, also after a complete value has been read (B == 15: at the very end)
+		d := doc(o.A)
+		rd := sim.NewSimReader(d, &sim.Schedule{Every: 3, FailAt: (o.B * (len(d) + 1)) / 15 % (len(d) + 1)})
+		v, err := oj.Load(rd)
+		r.canon = fmt.Sprint(err != nil) + ref.Exact(v)
+	case "sen.ParseReader(reader error)":
+		d := senDoc(o.A)
+		rd := sim.NewSimReader(d, &sim.Schedule{Every: 3, FailAt: (o.B * (len(d) + 1)) / 15 % (len(d) + 1)})
+		v, err := sen.ParseReader(rd)
+		r.canon = fmt.Sprint(err != nil) + ref.Exact(v)
+	case "oj.Parse(callback)":
+		var docs []any
+		v, err := oj.Parse([]byte(`1 [2] {"a":3} 4`), func(x any) bool { docs = append(docs, x); return false })
+		r.canon = canonDocs(err != nil, append(docs, v))
+	case "sen.Parse(callback)":
+		var docs []any
+		v, err := sen.Parse([]byte(`1 [2] {a:3} 4`), func(x any) bool { docs = append(docs, x); return false })
+		r.canon = canonDocs(err != nil, append(docs, v))
+	case "oj.Parse(empty)":
+		v, err := oj.Parse([]byte([]string{"", "  \n", "[1,"}[o.B%3]))
+		r.canon = canonDocs(err != nil, []any{v})
 	case "oj.Parse(panicking callback)":
 		n := 0
 		_, err := oj.Parse([]byte(`1 [2] {"a":3} 4`), func(v any) bool {
